@@ -14,6 +14,7 @@ import PhyVerif.Driver.C09
 import PhyVerif.Driver.C08
 import PhyVerif.Driver.C05
 import PhyVerif.Driver.C18
+import PhyVerif.Driver.C10
 open Lean PhyVerif.Driver
 
 partial def dispatch (j : Json) : R Json := do
@@ -40,6 +41,7 @@ partial def dispatch (j : Json) : R Json := do
   | "C08" => runC08 op j
   | "C05" => runC05 op j
   | "C18" => runC18 op j
+  | "C10" => runC10 op j
   | _ => .error s!"unknown property {p}"
 
 def handle (line : String) : String :=
